@@ -3,7 +3,8 @@
     from Proofs/PushLoopProofs.v. *)
 From Coq Require Import ZArith QArith Qround List Bool NArith Permutation.
 From HK Require Import Model.Queue Model.QueueMon Model.Retry Model.Dispatcher Model.PushLoop
-  Proofs.QueueBase Proofs.QueueInv Proofs.PushLoopProofs Proofs.PushCycleProofs Gen.PushShape Proofs.PushShapeProofs.
+  Proofs.QueueBase Proofs.QueueInv Proofs.PushLoopProofs Proofs.PushCycleProofs Proofs.PushRecordsProofs Gen.PushShape
+  Proofs.PushShapeProofs.
 Import ListNotations.
 Open Scope Z_scope.
 
@@ -75,6 +76,43 @@ Example C06_micro_batch_example :
      = [(2%N, Queued, 2000000006); (3%N, Queued, 7); (4%N, Queued, 8); (5%N, Queued, 0)].
 Proof. vm_compute. split; reflexivity. Qed.
 
+(** * Every attempt is recorded with its outcome - at the level of the micro-batch
+    The attempt records of a micro-batch are those of the items that were sent (reached before the stop, target configured), one
+    each and in order; a record carries its item's attempt number and answer, and its outcome (and dead reason) is the outcome of
+    the very settlement [expected] prescribes for that lease - so with the theorems above: what is recorded is what is done to the
+    message.  An item that is not sent (unknown target, not reached) leaves no record; with the distinct leases of one Dequeue no
+    lease has two. *)
+Theorem C06_micro_batch_records_one_attempt_per_sent_message : forall its stop,
+  map fst (run_records stop its) = map it_lease (sent_items stop its).
+Proof. exact run_records_one_per_sent_item. Qed.
+
+Theorem C06_micro_batch_record_is_the_settlement : forall its stop l r,
+  In (l, r) (run_records stop its) ->
+  exists it rc, In it its /\ it_lease it = l /\ it_target it = Some rc
+    /\ ar_attempt r = it_attempt it /\ ar_result r = it_result it
+    /\ In (settle_kind rc it, l) (expected stop its)
+    /\ kind_outcome (settle_kind rc it) = Some (ar_outcome r)
+    /\ match ar_reason r with
+       | Some why => settle_kind rc it = KDead (reason_code why)
+       | None => forall x, settle_kind rc it <> KDead x
+       end.
+Proof. exact run_records_match_the_settlement. Qed.
+
+Theorem C06_micro_batch_unsent_message_has_no_record : forall its stop l,
+  ~ In l (map it_lease (sent_items stop its)) -> forall r, ~ In (l, r) (run_records stop its).
+Proof. exact unsent_items_have_no_record. Qed.
+
+Theorem C06_micro_batch_no_lease_recorded_twice : forall its stop,
+  NoDup (map it_lease its) -> NoDup (map fst (run_records stop its)).
+Proof. exact run_records_at_most_one_per_lease. Qed.
+
+(** non-vacuity: of the four items of the example (stop after two) the first two are sent and recorded - acked / retry -,
+    the third is not reached and the fourth has no configured target: no record *)
+Example C06_micro_batch_records_example :
+  map enc_record (run_records 2 ex_items) = [[11; 1; 2; 0; 200]; [12; 2; 1; 0; 503]]
+  /\ map enc_record (run_records 4 ex_items) = [[11; 1; 2; 0; 200]; [12; 2; 1; 0; 503]; [13; 1; 3; 1; 404]].
+Proof. vm_compute. split; reflexivity. Qed.
+
 (** * A whole enqueue/requeue cycle on the queue
     Model/Dispatcher.v's [cycle] assumes that every dequeue increments the attempt by one and that a nack re-queues the
     message while ack / mark-dead end the cycle.  On the queue model this is a theorem: a chain of rounds on message i - a
@@ -136,6 +174,10 @@ Print Assumptions C06_micro_batch_settles_every_leased_message_once.
 Print Assumptions C06_micro_batch_never_extends.
 Print Assumptions C06_micro_batch_on_the_queue.
 Print Assumptions C06_settlement_is_the_classification.
+Print Assumptions C06_micro_batch_records_one_attempt_per_sent_message.
+Print Assumptions C06_micro_batch_record_is_the_settlement.
+Print Assumptions C06_micro_batch_unsent_message_has_no_record.
+Print Assumptions C06_micro_batch_no_lease_recorded_twice.
 Print Assumptions C06_cycle_on_the_queue_is_the_cycle.
 Print Assumptions C06_cycle_on_the_queue_sends_bounded.
 Print Assumptions C06_run_route_source_shape.
